@@ -17,7 +17,7 @@ func init() {
 			ruleH3(c)
 			ruleH4(c)
 		},
-		explanation: "Decides the table structure of the stub: every type assertion in setupHandlers against an interface stores that interface's sole method into the handler slot of the same name and (for the 13 event interfaces) sets exactly the bit of the event named like the method; all 13 events occur once, no bit is set outside such a branch and the subscription mask is written nowhere else; every handler slot is dispatched in exactly one place — the RPC method or the StateChange case of the event named like it — with the pod, container and resources of the incoming message in the handler's parameter order, its results wired unchanged into the same-named response fields and its error returned, and the no-handler path returns an empty response and nil; Configure rejects a mask asking for events the stub has no handler for before the success return, substitutes the implemented mask for an empty one and reports its result on the configuration channel exactly once on every path; a plugin implementing no event handler is refused at creation.",
+		explanation: "Decides the table structure of the stub: every type assertion in setupHandlers against an interface stores that interface's sole method into the handler slot of the same name and (for the 13 event interfaces) sets exactly the bit of the event named like the method; all 13 events occur once, no bit is set outside such a branch and the subscription mask is written nowhere else; every handler slot is dispatched in exactly one place — the RPC method or the StateChange case of the event named like it — with the pod, container and resources of the incoming message in the handler's parameter order, its results wired unchanged into the same-named response fields and its error returned, and the no-handler path returns an empty response and nil; Configure rejects a mask asking for events the stub has no handler for before the success return, substitutes the implemented mask for an empty one and reports its result on the configuration channel exactly once on every path; a plugin implementing no event handler is refused at creation. No return that skips a handler reports an error of the stub's own.",
 		notDecided: []string{
 			"delivery 'exactly once' across the transport",
 			"the values carried by the messages",
@@ -499,6 +499,17 @@ func ruleH2(c *Ctx) {
 			}
 			if !okNil && slot != "Shutdown" && slot != "Configure" {
 				bad = "there is no path for a missing handler that returns an empty response and nil"
+			}
+			// … and it is the only way past the handler: no return that skips the call reports an error of the stub's own
+			for _, r := range returnsOf(g) {
+				if domInstr(hc.inner, r) || instrCanReach(hc.inner, r) {
+					continue
+				}
+				for _, v := range returnValues(r, len(r.Results)-1) {
+					if !isNilConst(v) && bad == "" {
+						bad = fmt.Sprintf("the return at %s skips the handler and reports an error of the stub's own: the request is delivered zero times and the runtime gets that error instead of the handler's answer", c.pos(r.Pos()))
+					}
+				}
 			}
 		}
 		c.ok("H2", key, hc.call.Pos(), bad == "", what, bad)
